@@ -34,3 +34,40 @@ Print Assumptions C15_book_trie_is_lines.
 Print Assumptions C15_engine_book_move_legal.
 Print Assumptions engine_select_book_choice_legal.
 Print Assumptions trie_book_move_legal.
+
+(* ---- closed against the RULES (C15Closed.v): whenever the rules give the side to move a legal
+   move, the engine (book first, search otherwise; any random book choice) answers with a legal
+   move of the rules; when they give none it answers NoAvailableMoves; it never panics.  SoundW is
+   the executable wide search invariant (ReachWide.soundWb_spec), inductive along legal play. ---- *)
+From ChessV Require Import Types Board Moves MoveGen Abs Search.
+From ChessV Require ReachWide C15Closed.
+
+Section C15_closed.
+Variable T : ztable.
+Variables rook_t bishop_t : N -> N -> N.
+Hypothesis rook_t_ref : forall x o, x < 64 -> rook_t x o = Rays.rook_ref x o.
+Hypothesis bishop_t_ref : forall x o, x < 64 -> bishop_t x o = Rays.bishop_ref x o.
+
+Theorem C15_engine_always_moves : forall g choice,
+  1 <= gdepth g -> ReachWide.SoundW T rook_t bishop_t (N.to_nat (gdepth g)) (gboard g) ->
+  Rules.legal_moves_for (abstract (gboard g)) (turn (gboard g)) <> [] ->
+  exists m, engine_select T rook_t bishop_t g choice = GOk m
+            /\ In m (Rules.legal_moves_for (abstract (gboard g)) (turn (gboard g))).
+Proof. exact (C15Closed.engine_always_moves T rook_t bishop_t rook_t_ref bishop_t_ref). Qed.
+
+Theorem C15_engine_no_moves : forall g choice,
+  1 <= gdepth g -> ReachWide.SoundW T rook_t bishop_t (N.to_nat (gdepth g)) (gboard g) ->
+  Rules.legal_moves_for (abstract (gboard g)) (turn (gboard g)) = [] ->
+  engine_select T rook_t bishop_t g choice = GSearchError NoAvailableMoves.
+Proof. exact (C15Closed.engine_no_moves T rook_t bishop_t rook_t_ref bishop_t_ref). Qed.
+
+Theorem C15_engine_never_panics : forall g choice,
+  1 <= gdepth g -> ReachWide.SoundW T rook_t bishop_t (N.to_nat (gdepth g)) (gboard g) ->
+  engine_select T rook_t bishop_t g choice <> GPanic.
+Proof. exact (C15Closed.engine_never_panics T rook_t bishop_t rook_t_ref bishop_t_ref). Qed.
+End C15_closed.
+
+Check C15Closed.start_game_engine_moves.
+Print Assumptions C15_engine_always_moves.
+Print Assumptions C15_engine_no_moves.
+Print Assumptions C15_engine_never_panics.
